@@ -133,6 +133,13 @@ Proof.
   intros H. cbn [ret wps]. apply HQ; [reflexivity|exact H].
 Qed.
 
+Lemma lcval_s x s (Q : unit -> gst -> Prop) : guard s = None -> (forall s', same s s' -> w (npub s + 1) == ew x -> Q tt s') -> wps (lcval x) s Q.
+Proof.
+  intros G HQ. unfold lcval, pubval. cbn [bind wps]. apply assert_zero_s; [exact G|]. rewrite ew_sub. intros H. apply HQ; [reflexivity|].
+  assert (E : ew (var_slc (p:=p) (npub s + 1)) = w (npub s + 1)) by (unfold ew; cbn [wire var_slc eval fold_right fst snd]; ring).
+  rewrite <- E. transitivity (ew x - (ew x - ew (var_slc (p:=p) (npub s + 1)))); [apply eq_feq; ring|]. rewrite H. apply eq_feq. ring.
+Qed.
+
 (* ---- statements about [run]: what any satisfying assignment of the emitted constraints must look like ---- *)
 Section Run.
 Variable c : cfg.
@@ -221,6 +228,12 @@ Theorem truediv_forced x y r s' cs : run (truediv x y) s = (inl r, s', cs) -> sa
 Proof.
   intros R H _. apply (wps_sound w _ _ (truediv x y) s (fun r _ => ew y * ew r == ew x)) with (s' := s') (cs := cs); auto.
   apply truediv_s; [exact G|]. intros r0 s0 _ E. exact E.
+Qed.
+(* val(): the new public variable is tied to the wire it publishes *)
+Theorem lcval_forced x u s' cs : run (lcval x) s = (inl u, s', cs) -> sat cs -> w (npub s + 1) == ew x.
+Proof.
+  intros R H. apply (wps_sound w _ _ (lcval x) s (fun _ _ => w (npub s + 1) == ew x)) with (s' := s') (cs := cs) (a := u); auto.
+  apply lcval_s; [exact G|]. intros s0 _ E. exact E.
 Qed.
 End Run.
 End AG.
